@@ -296,3 +296,43 @@ pub fn run(case: &Sx) -> Sx {
         Err(_) => panic_at("harness"),
     }
 }
+
+
+/// Case kind LOADINC: the LOAD answer format (see load.rs) for a document that lives in files.
+/// case   ( ( <file>* ) s<main relative path> i<strict> )
+/// answer ( sOK <node> ( <diag>* ) s<write_to_string()> ( ) <floattable of all file texts> <a2mltable> s<case directory> )
+///      | ( sERR <diag> <floattable> <a2mltable> s<case directory> ) | ( sPANIC s<stage> <floattable> <a2mltable> s<case directory> )
+pub fn run_loadinc(case: &Sx) -> Sx {
+    use crate::load::{a2mltable, diag_a2l, floattable_words};
+    let c = case.as_list();
+    let files = c[0].as_list();
+    let main_rel = c[1].as_str();
+    let strict = c[2].as_int() != 0;
+    let mut all_text = String::new();
+    for f in files {
+        let l = f.as_list();
+        all_text.push_str(&String::from_utf8_lossy(l[1].as_bytes()));
+        all_text.push('\n');
+    }
+    let (dir, main) = match setup(files, &main_rel) {
+        Ok(v) => v,
+        Err(msg) => return harness_err(&msg),
+    };
+    let dirname = Sx::s(&dir.0.to_string_lossy());
+    let tables = || vec![floattable_words(&all_text), a2mltable("", &None), dirname.clone()];
+    let loaded = catch_unwind(AssertUnwindSafe(|| a2lfile::load(&main, None, strict)));
+    let (file, log) = match loaded {
+        Err(_) => return Sx::L([vec![Sx::s("PANIC"), Sx::s("load")], tables()].concat()),
+        Ok(Err(e)) => return Sx::L([vec![Sx::s("ERR"), diag_a2l(&e)], tables()].concat()),
+        Ok(Ok(v)) => v,
+    };
+    let Ok(dump) = catch_unwind(AssertUnwindSafe(|| dump_a2lfile(&file))) else {
+        return Sx::L([vec![Sx::s("PANIC"), Sx::s("dump")], tables()].concat());
+    };
+    let Ok(text1) = catch_unwind(AssertUnwindSafe(|| file.write_to_string())) else {
+        return Sx::L([vec![Sx::s("PANIC"), Sx::s("write")], tables()].concat());
+    };
+    Sx::L(
+        [vec![Sx::s("OK"), dump, Sx::L(log.iter().map(diag_a2l).collect()), Sx::s(&text1), Sx::L(vec![])], tables()].concat(),
+    )
+}
